@@ -457,12 +457,12 @@ Definition inline_kinds_valid_full_statement : Prop :=
   forall memo o u inp lo sl refmap maxref rs0 ch rs,
     parse_inlines memo o u inp lo sl refmap maxref rs0 = Ok (ch, rs) -> forallb itree ch = true.
 
-(* ------------------------------------------------------------------ reference definitions: the title survives the rewind.
-   content: [a]: /u NEWLINE "t" junk NEWLINE *)
+(* ------------------------------------------------------------------ reference definitions: the title does not survive the
+   rewind (INL-2 repaired: `title.clear()`).  content: [a]: /u NEWLINE "t" junk NEWLINE *)
 Definition refdef_witness : bytes :=
   [x5b; x61; x5d; x3a; x20; x2f; x75; x0a; x22; x74; x22; x20; x6a; x75; x6e; x6b; x0a].
 
-Lemma refdef_title_kept_lemma :
+Lemma refdef_title_dropped_lemma :
   refdefs (map to_lower_ascii) refdef_witness
-  = Ok ([x22; x74; x22; x20; x6a; x75; x6e; x6b; x0a], [([x61], ([x2f; x75], [x74]))]).
+  = Ok ([x22; x74; x22; x20; x6a; x75; x6e; x6b; x0a], [([x61], ([x2f; x75], []))]).
 Proof. vm_compute. reflexivity. Qed.
